@@ -89,7 +89,10 @@ structure FileSkel where
   msgs : List MsgSkel
   enums : List EnumSkel
   svcs : List SvcSkel
+  /-- files whose extensions are set somewhere in this file's options (not part of the
+  descriptor; the link model checks them against `deps`) -/
+  uses : List Str := []
 
-instance : Inhabited FileSkel := ⟨⟨[], [], [], [], [], []⟩⟩
+instance : Inhabited FileSkel := ⟨⟨[], [], [], [], [], [], []⟩⟩
 
 end J5V.Compile
